@@ -122,18 +122,18 @@ def gen_lean():
 
     # --- _get_rotation_matrices: reflected_mask = det(v) * det(w) < 0 ; v[reflected_mask, :, -1] *= -1 ; matmul(v, w)
     f = _find_func(tree, "_get_rotation_matrices")
-    refl_cmp = refl_const = flip_axis = flip_factor = None
+    refl_cmp = refl_const = flip_axis = flip_factor = det_names = None
     flip_target = None
     mat_args = None
     for node in ast.walk(f):
-        if isinstance(node, ast.Assign) and isinstance(node.value, ast.Compare) and \
-                isinstance(node.targets[0], ast.Name) and "reflect" in node.targets[0].id:
-            c = node.value
-            refl_cmp = _cmp_name(c.ops[0])
-            refl_const = ast.literal_eval(c.comparators[0])
-            left = ast.unparse(c.left).replace(" ", "")
-            if left not in ("np.linalg.det(v)*np.linalg.det(w)", "np.linalg.det(w)*np.linalg.det(v)"):
-                raise ValueError("reflection test is not det(v)*det(w): " + left)
+        if isinstance(node, ast.Compare) and isinstance(node.left, ast.BinOp) and isinstance(node.left.op, ast.Mult):
+            c = node
+            sides = [c.left.left, c.left.right]
+            if all(isinstance(x, ast.Call) and ast.unparse(x.func) == "np.linalg.det" and len(x.args) == 1
+                   and isinstance(x.args[0], ast.Name) for x in sides):
+                refl_cmp = _cmp_name(c.ops[0])
+                refl_const = ast.literal_eval(c.comparators[0])
+                det_names = sorted(x.args[0].id for x in sides)
         if isinstance(node, ast.AugAssign) and isinstance(node.target, ast.Subscript):
             sl = node.target.slice
             if isinstance(sl, ast.Tuple) and len(sl.elts) == 3:
@@ -150,9 +150,11 @@ def gen_lean():
     for node in ast.walk(f):
         if isinstance(node, ast.Assign) and isinstance(node.value, ast.Call) and ast.unparse(node.value.func) == "np.linalg.svd":
             svd_names = [ast.unparse(e) for e in node.targets[0].elts]
-    if None in (refl_cmp, refl_const, flip_axis, flip_factor, flip_target, mat_args, svd_names):
+    if None in (refl_cmp, refl_const, flip_axis, flip_factor, flip_target, mat_args, svd_names, det_names):
         raise ValueError("could not extract the reflection correction of _get_rotation_matrices")
     # position of the flipped matrix in the svd result (0 = u) and the product order
+    if det_names != sorted([svd_names[0], svd_names[2]]) or flip_target not in svd_names or any(a not in svd_names for a in mat_args):
+        raise ValueError("reflection test / flip / product do not refer to the svd factors")
     flip_pos = svd_names.index(flip_target)
     prod = [svd_names.index(a) for a in mat_args]
 
@@ -195,10 +197,27 @@ def gen_lean():
 
     # --- superimpose: AffineTransformation(-mob_centroid, rotation, fix_centroid)
     f = _find_func(tree, "superimpose")
+    params = {a.arg for a in f.args.args}
+    deps = {p: {p} for p in params}             # local name -> parameters it is computed from (source order)
+    for node in sorted((n for n in ast.walk(f) if isinstance(n, ast.Assign)), key=lambda n: n.lineno):
+        used = set()
+        for n in ast.walk(node.value):
+            if isinstance(n, ast.Name) and n.id in deps:
+                used |= deps[n.id]
+        for tgt in node.targets:
+            for n in ast.walk(tgt):
+                if isinstance(n, ast.Name):
+                    deps[n.id] = deps.get(n.id, set()) | used if isinstance(tgt, ast.Subscript) else set(used)
     ctor = None
     for node in ast.walk(f):
         if isinstance(node, ast.Call) and ast.unparse(node.func) == "AffineTransformation":
-            ctor = [ast.unparse(a).replace(" ", "") for a in node.args]
+            ctor = []
+            for a in node.args:
+                neg = isinstance(a, ast.UnaryOp) and isinstance(a.op, ast.USub)
+                core = a.operand if neg else a
+                if not isinstance(core, ast.Name) or core.id not in deps:
+                    raise ValueError("superimpose: unexpected AffineTransformation argument " + ast.unparse(a))
+                ctor.append(("-" if neg else "") + "+".join(sorted(deps[core.id] & {"fixed", "mobile"})))
     if ctor is None:
         raise ValueError("superimpose: AffineTransformation(...) construction not found")
 
@@ -207,24 +226,38 @@ def gen_lean():
     names = [a.arg for a in f.args.args]
     defaults = dict(zip(names[-len(f.args.defaults):], [ast.literal_eval(d) for d in f.args.defaults]))
     inlier_cmp = min_cmp = iter_cmp = iter_const = returned = None
+    fit_masks = set()
     for node in ast.walk(f):
+        # the inlier test: `mask[mask] = (sq_dist <= bound)` — a comparison assigned through a subscript
+        if isinstance(node, ast.Assign) and isinstance(node.targets[0], ast.Subscript) and isinstance(node.value, ast.Compare):
+            inlier_cmp = _cmp_name(node.value.ops[0])
+            bound = node.value.comparators[0]
+            if not (isinstance(bound, ast.BinOp) and isinstance(bound.op, ast.Add)
+                    and any(isinstance(x, ast.BinOp) and isinstance(x.op, ast.Mult) and
+                            "outlier_threshold" in (ast.unparse(x.left), ast.unparse(x.right)) for x in (bound.left, bound.right))):
+                raise ValueError("inlier bound is not `q_upper + outlier_threshold * ipr`: " + ast.unparse(bound))
         if isinstance(node, ast.Compare):
             left = ast.unparse(node.left)
             right = ast.unparse(node.comparators[0])
-            if left == "sq_dist":
-                inlier_cmp = _cmp_name(node.ops[0])
-                if right.replace(" ", "") != "upper_quantile+outlier_threshold*ipr":
-                    raise ValueError("inlier bound changed: " + right)
-            elif right == "min_anchors":
+            if right == "min_anchors":
                 min_cmp = _cmp_name(node.ops[0])
-                if left != "np.count_nonzero(updated_inlier_mask)":
+                if not left.startswith("np.count_nonzero("):
                     raise ValueError("min_anchors test changed: " + left)
             elif left == "max_iterations":
                 iter_cmp, iter_const = _cmp_name(node.ops[0]), ast.literal_eval(node.comparators[0])
+        # masks used to select the coordinates that are fitted: coord[..., MASK, :]
+        if isinstance(node, ast.Subscript) and isinstance(node.slice, ast.Tuple) and len(node.slice.elts) == 3 and \
+                isinstance(node.slice.elts[0], ast.Constant) and node.slice.elts[0].value is Ellipsis and \
+                isinstance(node.slice.elts[1], ast.Name):
+            fit_masks.add(node.slice.elts[1].id)
         if isinstance(node, ast.Assign) and isinstance(node.targets[0], ast.Name) and node.targets[0].id == "anchor_indices":
-            returned = ast.unparse(node.value).replace(" ", "")
-    if None in (inlier_cmp, min_cmp, iter_cmp, iter_const, returned):
+            names = [n.id for n in ast.walk(node.value) if isinstance(n, ast.Name) and n.id != "np"]
+            if not ast.unparse(node.value).startswith("np.where(") or len(names) != 1:
+                raise ValueError("anchor_indices is not np.where(<mask>)[0]")
+            returned = names[0]
+    if None in (inlier_cmp, min_cmp, iter_cmp, iter_const, returned) or len(fit_masks) != 1:
         raise ValueError("could not extract the guards of superimpose_without_outliers")
+    returned = "fitted-mask" if returned in fit_masks else "other:" + returned
 
     def s(x):
         return '"' + str(x) + '"'
@@ -613,17 +646,16 @@ def _gen_hom(rng):
     base = {i: [rng.randint(-6, 6) for _ in range(3)] for i in range(max(totF, totM) + 1)}
     Fx = [[list(base[i]) for i in range(totF)] for _ in range(mf)]
     Mx = [[[rng.randint(-6, 6) for _ in range(3)] for _ in range(totM)] for _ in range(mm)]
-    # matched (or, in the fallback, same-rank) backbone atoms: fixed position + integer-length displacement
-    pairs = [(FI[a], MI[b]) for a, b in A]
-    if nF == nM:
-        pairs += list(zip(FI, MI)) if len(A) < 3 else []
+    minA, maxI, q, thr = _cfg(rng, rng.random() < 0.04)
+    if k == 0 and minA == 0:
+        minA = 1          # zero anchors (np.quantile of an empty array) is outside the property (n >= 1): unmodelled
+    # the atoms that will be anchors (matched pairs, or same-rank backbone atoms in the fallback):
+    # fixed position + integer-length displacement, so that sqrt(.)**2 is exact in float32
+    pairs = [(FI[a], MI[b]) for a, b in A] if len(A) >= minA else (list(zip(FI, MI)) if nF == nM else [])
     for fi, mi in pairs:
         d, s = rng.choice(_INT_NORM), (rng.choice([5, 9]) if rng.random() < 0.25 else rng.choice([0, 0, 1]))
         for mod in Mx:
             mod[mi] = [Fx[0][fi][j] + s * d[j] for j in range(3)]
-    minA, maxI, q, thr = _cfg(rng, rng.random() < 0.04)
-    if k == 0 and minA == 0:
-        minA = 1          # zero anchors (np.quantile of an empty array) is outside the property (n >= 1): unmodelled
     lst = lambda a: ",".join(str(i) for i in a) if a else "_"   # noqa: E731
     return {"kind": "hom",
             "ops": [f"hom {dimF} {mf} {totF} {dimM} {mm} {totM} {_toks(_flatten(Fx))} {_toks(_flatten(Mx))} "
@@ -748,9 +780,9 @@ def cases(rng, tier):
         yield _gen_woo(rng)
     for _ in range(70 * k):
         yield _gen_hom(rng)
-    for _ in range(260 * k):
+    for _ in range(500 * k):
         yield _gen_fit(rng)
-    for _ in range(80 * k):
+    for _ in range(120 * k):
         yield _gen_woo_float(rng)
 
 
@@ -818,7 +850,7 @@ def _tol(*arrays):
     """Absolute tolerance on coordinates / RMSD for float32 pipelines on data of this magnitude."""
     import numpy as np
     s = max([1.0] + [float(np.abs(np.asarray(a, dtype=np.float64)).max()) for a in arrays if np.size(a)])
-    return 3e-5 * s
+    return 4e-6 * s        # ~10x the largest error observed on the unchanged tree (calibrated over 1500 cases)
 
 
 def _check_transform(T, X, tag, v):
@@ -1019,19 +1051,19 @@ def _oracle_woo(case):
     # the anchor sets of successive fits only shrink; at most max_iterations fits
     if not (1 <= len(calls) <= maxI):
         v.append(("C16/without_outliers/iteration-count", f"{len(calls)} fits for max_iterations={maxI}"))
-    prev = list(range(n))
     f2 = fixed if fixed.ndim == 2 else fixed[0]
+    prev = f2                      # rows the previous fit used (coordinates: duplicates make indices ambiguous)
     for i, (fc_i, _) in enumerate(calls):
         rows = fc_i if fc_i.ndim == 2 else fc_i[0]
-        idx = _subseq_indices(f2[prev], rows)
-        if idx is None or (i == 0 and len(rows) != n):
-            v.append(("C16/without_outliers/anchors-not-shrinking", f"fit {i} used {len(rows)} atoms after {len(prev)}"))
+        if _subseq_indices(prev, rows) is None or (i == 0 and len(rows) != n):
+            v.append(("C16/without_outliers/anchors-not-shrinking", f"fit {i} used {len(rows)} atoms after {len(prev)}: not a sub-selection"))
             break
-        prev = [prev[j] for j in idx]
+        prev = rows
         if i > 0 and len(prev) < min(minA, n):
             v.append(("C16/without_outliers/fit-below-min-anchors", f"fit {i} used {len(prev)} atoms, min_anchors={minA}"))
-    if calls and not v and prev != anchors:
-        v.append(("C16/without_outliers/returned-anchors-are-not-the-fitted-ones", f"last fit on {prev}, returned {anchors}"))
+    if calls and not v and not np.array_equal(prev, f2[anchors]):
+        v.append(("C16/without_outliers/returned-anchors-are-not-the-fitted-ones",
+                  f"last fit used {len(prev)} atoms, returned anchors {anchors[:20]} select different coordinates"))
     # the returned transformation is the fit on exactly the returned anchors (deterministic -> bit-equal)
     if anchors:
         _, T2 = real(fixed[..., anchors, :], mobile[..., anchors, :])
